@@ -85,7 +85,7 @@ impl IndicatorConfig for IchimokuCloud {
 	}
 
 	fn validate(&self) -> bool {
-		self.l1 < self.l2 && self.l2 < self.l3
+		self.l1 < self.l2 && self.l2 < self.l3 && self.l1 > 0 && self.m > 0
 	}
 
 	fn set(&mut self, name: &str, value: String) -> Result<(), Error> {
